@@ -58,3 +58,129 @@ def interp_origin(b, op):
             if isinstance(pr, dict) and 'f' in pr and pr.get('name'):
                 names.append(pr['name'])
     return r, names
+
+
+# ---- flattened token trees: splices of streams built in the same function and of local template helpers are expanded
+class Flat:
+    def __init__(self, facts, b):
+        self.facts, self.b = facts, b
+        self.S = by_stream(quote_events(b))
+        self.referenced = set()
+        self._memo = {}
+
+    def root(self, op):
+        r, _p, _v = self.b.op_root(op, through=Body.THROUGH + ('into', 'from', 'to_token_stream', 'into_token_stream'), stop_named=False)
+        return r
+
+    def flat(self, s, depth=0):
+        """[('ident'|'punct'|'lit', text, bb) | ('group', [..], bb) | ('interp', operand, bb)]"""
+        if s in self._memo:
+            return self._memo[s]
+        out = []
+        if depth > 8:
+            return out
+        for e in self.S.get(s, []):
+            bb, _s, kind, val = e
+            if kind in ('ident', 'punct', 'lit'):
+                out.append((kind, val, bb))
+            elif kind == 'group':
+                self.referenced.add(val)
+                out.append(('group', self.flat(val, depth + 1), bb))
+            else:
+                r = self.root(val)
+                if r in self.S and r != s:
+                    self.referenced.add(r)
+                    out += self.flat(r, depth + 1)
+                    continue
+                exp = self.template(r, depth)
+                if exp is not None:
+                    out += exp
+                else:
+                    out.append(('interp', val, bb))
+        self._memo[s] = out
+        return out
+
+    def template(self, r, depth):
+        """r is the result of calling a local closure / fn that returns a quoted template: expand it with the call's arguments"""
+        ds = self.b.defs().get(r, []) if r is not None else []
+        if len(ds) != 1 or ds[0][1] != 'call':
+            return None
+        t = ds[0][2]
+        c = callee_of(t)
+        if c is None:
+            return None
+        hp = c.get('resolved') or c['path']
+        args = t['args']
+        hb = self.facts.bodies.get(hp)
+        if c.get('name') in ('call', 'call_mut', 'call_once') and args and (c.get('trait') or '').startswith('core::ops::function::Fn'):
+            # a closure value called through Fn*::call(&closure, (args,))
+            if hb is None:
+                cl = self.b.op_root(args[0], through=Body.THROUGH, stop_named=False)[0]
+                for d in self.b.defs().get(cl, []):
+                    if d[1] == 'stmt' and isinstance(d[2].get('agg'), dict) and 'closure' in d[2]['agg']:
+                        hb = self.facts.bodies.get(d[2]['agg']['closure'])
+            tl = op_local(args[1]) if len(args) > 1 else None
+            targs = []
+            for d in self.b.defs().get(tl, []) if tl is not None else []:
+                if d[1] == 'stmt' and d[2].get('agg') == 'tuple':
+                    targs = d[2]['ops']
+            args = [args[0]] + list(targs)
+        if hb is None:
+            return None
+        H = Flat(self.facts, hb)
+        # the stream the helper returns
+        rs = None
+        for bb, _i, st in hb.stmts():
+            if st['k'] == 'assign' and st['lhs']['l'] == 0 and not st['lhs']['p'] and 'use' in st['rv']:
+                rs = H.root(st['rv']['use'])
+        if rs is None or rs not in H.S:
+            return None
+
+        def subst(items):
+            out = []
+            for it in items:
+                if it[0] == 'group':
+                    out.append(('group', subst(it[1]), it[2]))
+                elif it[0] == 'interp':
+                    l = op_local(it[1])
+                    deps = set()
+                    seen, todo = set(), [l] if l is not None else []
+                    while todo:
+                        x = todo.pop()
+                        if x in seen:
+                            continue
+                        seen.add(x)
+                        if 1 <= x <= hb.arg_count:
+                            deps.add(x)
+                            continue
+                        for d in hb.defs().get(x, []):
+                            ops = rv_operands(d[2]) if d[1] == 'stmt' else d[2]['args']
+                            if d[1] == 'stmt' and 'ref' in d[2]:
+                                todo.append(d[2]['ref']['l'])
+                            for o in ops:
+                                pl = op_place(o)
+                                if pl is not None:
+                                    todo.append(pl['l'])
+                    done = False
+                    if len(deps) == 1:
+                        k = list(deps)[0] - 1
+                        if k < len(args):
+                            ar = self.root(args[k])
+                            if ar in self.S:
+                                self.referenced.add(ar)
+                                out += self.flat(ar, depth + 1)
+                                done = True
+                            else:
+                                out.append(('interp', args[k], ds[0][0]))
+                                done = True
+                    if not done:
+                        out.append(('opaque', None, it[2]))
+                else:
+                    out.append(it)
+            return out
+        return subst(H.flat(rs))
+
+    def roots(self):
+        for s in list(self.S):
+            self.flat(s)
+        return [s for s in self.S if s not in self.referenced]
